@@ -87,5 +87,7 @@ def engine_scale_freedom(rec):
     rec.extra["ast"] = ast_info()
     rec.assume("engine leg: the Euler step of the native engine is executed symbolically (cxx-sym) and proved equal to the rate law for all real values of state / k / D / dt, on one grid and one graph structure; the stochastic engines' propensities are proved equal to the law's terms for all values in C07")
     rec.encoded("Euler3D::Iterate / EulerGraph::Iterate, Build_mesh_kd / Build_node_kd (no magnitude-dependent branch)")
-    for netname, sd in (("ABC_bi", ("grid", 2, 1, 1, 1)), ("AB_rev", ("graph", "pair"))):
+    # orders 0, 1, 2 on both space types; the cells' volume number is 8, not 1 (a law that is not homogeneous in the volume - a zero-order
+    # source without its factor V - depends on the number the volume takes in the script's units)
+    for netname, sd in (("ABC_bi", ("grid", 2, 1, 1, 1)), ("AB_rev", ("graph", "pair")), ("dimer_source", ("grid", 2, 1, 1, 1)), ("dimer_source", ("graph", "pair"))):
         check_euler_step(rec, netname, sd, label="engine step has no absolute scale: equals the rate law for every magnitude of state, k, D, dt")
